@@ -20,11 +20,12 @@ import (
 
 	"github.com/flamego/flamego"
 	"github.com/flamego/flamego/verifharness/internal/evid"
+	"github.com/flamego/flamego/verifharness/internal/gen"
 	"github.com/flamego/flamego/verifharness/internal/model"
 	"github.com/flamego/flamego/verifharness/internal/rt"
 )
 
-const rule = "case = one request: a query string (value-first: generated values - arbitrary bytes, separators, blanks, non-ASCII, numbers at and beyond the int range, boolean and float literals, garbage - are percent-encoded by the harness' own encoder; optionally next to malformed pairs under other keys; or a raw hostile query string), a bind parameter value sent through a /{v} route, a cookie value (arbitrary bytes, read twice; optionally written after a cookie whose name extends its name, and sent next to cookies whose names differ in letter case only) and a raw Cookie header; optionally the request arrives with another query which a middleware replaces by the one under test before any accessor is called; optionally the request is a POST whose urlencoded body (parsed by an earlier handler) carries other values under the same key; every accessor is called with and without a default; optionally two further requests to one route with a bind, the first of which writes a key into its own Params() that the second reads. " +
+const rule = "case = one request: a query string (value-first: generated values - arbitrary bytes, separators, blanks, non-ASCII, numbers at and beyond the int range, boolean and float literals, garbage - are percent-encoded by the harness' own encoder; optionally next to malformed pairs under other keys; or a raw hostile query string), a bind parameter value sent through a /{v} route, a cookie value (arbitrary bytes, one time in twelve 0.5..70 KB of them, read twice; optionally every cookie on a Cookie header line of its own behind another cookie's line; optionally written after a cookie whose name extends its name, and sent next to cookies whose names differ in letter case only) and a raw Cookie header; optionally the request arrives with another query which a middleware replaces by the one under test before any accessor is called; optionally the request is a POST whose urlencoded body (parsed by an earlier handler) carries other values under the same key; every accessor is called with and without a default; optionally two further requests to one route with a bind, the first of which writes a key into its own Params() that the second reads. " +
 	"Oracle: no panic; an own evaluation of the rule (own percent codec, own integer recogniser + big.Int range check, own 12-literal boolean table, exact float round trip, trim = TrimSpace of Query); the Set-Cookie header produced by SetCookie is fed back as a Cookie header and must read back byte for byte. " +
 	"non-trivial = a value with control bytes, separators (; , = & % + blank), non-ASCII / invalid UTF-8, a number at or over the int range, a malformed typed value with a default supplied, or a raw hostile query / cookie header; distinct by case text"
 
@@ -77,6 +78,9 @@ type Case struct {
 	// Longer: SetCookie is first called for a cookie whose name starts with the
 	// name of the cookie under test ("ck_sig"), then for "ck": both come back.
 	Longer bool `json:"cookie_with_a_longer_name_first,omitempty"`
+	// Lines: the client sends its cookies on several Cookie header lines, one
+	// cookie per line (what HTTP/2 clients do), another cookie's line first.
+	Lines bool `json:"cookies_on_several_header_lines,omitempty"`
 	// RawEq: '=' inside the values is sent as it is ("k=YWI=": everything behind
 	// the first '=' of a pair is the value).
 	RawEq bool `json:"equal_signs_in_values_sent_raw,omitempty"`
@@ -294,6 +298,13 @@ func checkCase(c Case) (out evid.Outcome) {
 		cookieHeader += "; raw=" + unq(c.RawCk)
 	}
 	h.Set("Cookie", cookieHeader)
+	if c.Lines {
+		h.Del("Cookie")
+		h.Add("Cookie", "session=first-line")
+		for _, one := range strings.Split(cookieHeader, "; ") {
+			h.Add("Cookie", one)
+		}
+	}
 	seg := enc(param)
 	req := rt.NewRequest("GET", "/q/"+seg, h)
 	if c.Form {
@@ -330,7 +341,7 @@ func checkCase(c Case) (out evid.Outcome) {
 	for _, f := range []struct {
 		name string
 		on   bool
-	}{{"query-rewritten-by-middleware", c.Rewritten && !c.Form}, {"cookie-with-a-longer-name-first", c.Longer}, {"equal-signs-sent-raw", c.RawEq}, {"cookie-names-in-other-case", c.CaseSibling}} {
+	}{{"query-rewritten-by-middleware", c.Rewritten && !c.Form}, {"cookie-with-a-longer-name-first", c.Longer}, {"equal-signs-sent-raw", c.RawEq}, {"cookie-names-in-other-case", c.CaseSibling}, {"cookies-on-several-header-lines", c.Lines}} {
 		if f.on {
 			out.Classes = append(out.Classes, f.name)
 		}
@@ -623,9 +634,9 @@ func genValue(t *rapid.T) string {
 
 func genCase(t *rapid.T) Case {
 	c := Case{
-		V:      strconv.QuoteToASCII(genValue(t)),
+		V:      strconv.QuoteToASCII(gen.Big(t, genValue(t))),
 		Param:  strconv.QuoteToASCII(genValue(t)),
-		Cookie: strconv.QuoteToASCII(genValue(t)),
+		Cookie: strconv.QuoteToASCII(gen.Big(t, genValue(t))),
 		DefS:   []string{"", "dflt", " pad ", "d%41", "a+b", "%zz"}[rapid.IntRange(0, 5).Draw(t, "defs")],
 		DefI:   []int64{0, 1, -7, 42}[rapid.IntRange(0, 3).Draw(t, "defi")],
 		DefB:   rapid.Bool().Draw(t, "defb"),
@@ -662,6 +673,7 @@ func genCase(t *rapid.T) Case {
 	c.CaseSibling = rapid.IntRange(0, 3).Draw(t, "casesibling") == 0
 	c.Rewritten = !c.Form && rapid.IntRange(0, 4).Draw(t, "rewritten") == 0
 	c.Longer = rapid.IntRange(0, 3).Draw(t, "longer") == 0
+	c.Lines = rapid.IntRange(0, 3).Draw(t, "cookielines") == 0
 	c.RawEq = rapid.IntRange(0, 2).Draw(t, "raweq") == 0
 	if rapid.IntRange(0, 4).Draw(t, "rawck") == 0 {
 		c.RawCk = strconv.QuoteToASCII([]string{"%zz", "a b", "\"q\"", "x;y", "a=b", "%41", "\xff", "", "a+b%20c", "%4", "100%"}[rapid.IntRange(0, 10).Draw(t, "rck")])
